@@ -183,13 +183,14 @@ def tlc_ok(res, what):
     """Raise MachineryError unless the TLC run completed without any error."""
     if res.rc != 0 or res.errors or res.violated:
         os.makedirs(os.path.join(VERIF, 'out'), exist_ok=True)
-        with open(os.path.join(VERIF, 'out', 'last_tlc_error.log'), 'w') as f:
+        name = 'last_tlc_error.%s.log' % re.sub(r'[^A-Za-z0-9_]+', '_', what)[:40]
+        with open(os.path.join(VERIF, 'out', name), 'w') as f:
             # without the emitted cases (they can be gigabytes), at most 4 MB
             log = '\n'.join(ln for ln in res.out.splitlines() if not ln.startswith('"CASE'))
             f.write(log if len(log) < 4000000 else log[:2000000] + '\n...\n' + log[-2000000:])
         tail = '\n'.join([ln for ln in res.out.splitlines() if not ln.startswith('  |') and not ln.startswith('"CASE')][-40:])
-        raise MachineryError('%s: TLC rc=%s errors=%s violated=%s (full log: out/last_tlc_error.log)\n%s'
-                             % (what, res.rc, res.errors[:5], res.violated[:5], tail))
+        raise MachineryError('%s: TLC rc=%s errors=%s violated=%s (full log: out/%s)\n%s'
+                             % (what, res.rc, res.errors[:5], res.violated[:5], name, tail))
 
 
 def sany(work, module):
